@@ -5,6 +5,9 @@ CONSTANTS
   Drops = {0, 1}
   Sizes = {1}
   MaxLen = 6
+  SeqOpts = {TRUE}
+  TsOpts = {TRUE}
+  Rebinds = FALSE
   Impl = "carry"
 INIT Init
 NEXT Next
